@@ -1,17 +1,19 @@
 #!/bin/bash
-# tools/seed_confirm.sh <worktree> : confirm a seeded change independently (demo fails with it, passes without it, test-suite unchanged)
+# tools/seed_confirm.sh <worktree> [notests] : confirm a seeded change independently
+#   demo fails with the patch, passes without it (git apply -R / git apply: `git stash` is shared between worktrees),
+#   full test-suite with the patch shows only the baseline failures
 wt=$1
 cd "$wt" || exit 9
 [ -f SEED/patch.diff ] || { echo "no SEED/patch.diff"; exit 9; }
-git diff --quiet -- PEPit && { echo "patch not applied in worktree: applying"; git apply SEED/patch.diff || exit 9; }
+git checkout -q -- PEPit; git apply SEED/patch.diff || { echo "patch does not apply"; exit 9; }
 echo "--- demo WITH patch (expect non-zero)"
-PYTHONPATH="$wt" timeout 1200 /venv/bin/python -W ignore SEED/demo.py > /tmp/seed_demo_with.out 2>&1; a=$?
-tail -3 /tmp/seed_demo_with.out
-git stash -q -- PEPit
+PYTHONPATH="$wt" timeout 1800 /venv/bin/python -W ignore SEED/demo.py > /tmp/seed_demo_with_$(basename $wt).out 2>&1; a=$?
+tail -3 /tmp/seed_demo_with_$(basename $wt).out
+git apply -R SEED/patch.diff
 echo "--- demo WITHOUT patch (expect 0)"
-PYTHONPATH="$wt" timeout 1200 /venv/bin/python -W ignore SEED/demo.py > /tmp/seed_demo_without.out 2>&1; b=$?
-tail -2 /tmp/seed_demo_without.out
-git stash pop -q
+PYTHONPATH="$wt" timeout 1800 /venv/bin/python -W ignore SEED/demo.py > /tmp/seed_demo_without_$(basename $wt).out 2>&1; b=$?
+tail -2 /tmp/seed_demo_without_$(basename $wt).out
+git apply SEED/patch.diff
 echo "demo_with=$a demo_without=$b"
 if [ "$2" != "notests" ]; then
   echo "--- test-suite WITH patch"
